@@ -60,16 +60,16 @@ Digit(idx, base, pos) == (idx \div Pow(base, pos)) % base      \* pos = 0,1,..
 (* a matrix is a sequence of rows; entries are integers *)
 Dim(A) == Len(A)
 DelAt(s, k) == SubSeq(s, 1, k - 1) \o SubSeq(s, k + 1, Len(s))
-Minor(A, i, j) == LET B == DelAt(A, i) IN [r \in 1..Len(B) |-> DelAt(B[r], j)]
-Transpose(A) == [i \in 1..Len(A) |-> [j \in 1..Len(A) |-> A[j][i]]]
-IdentityM(n) == [i \in 1..n |-> [j \in 1..n |-> IF i = j THEN 1 ELSE 0]]
-MulII(A, B) == [i \in 1..Len(A) |-> [j \in 1..Len(B[1]) |->
-                  SumInts([k \in 1..Len(B) |-> A[i][k] * B[k][j]])]]
+Minor(A, i, j) == LET B == DelAt(A, i) IN TLCEval([r \in 1..Len(B) |-> DelAt(B[r], j)])
+Transpose(A) == TLCEval([i \in 1..Len(A) |-> TLCEval([j \in 1..Len(A) |-> A[j][i]])])
+IdentityM(n) == TLCEval([i \in 1..n |-> TLCEval([j \in 1..n |-> IF i = j THEN 1 ELSE 0])])
+MulII(A, B) == TLCEval([i \in 1..Len(A) |-> TLCEval([j \in 1..Len(B[1]) |->
+                  SumInts(TLCEval([k \in 1..Len(B) |-> A[i][k] * B[k][j]]))])])
 
 (* permutations of 1..n with their signs (constant definitions, evaluated once) *)
 Inversions(f, n) == Cardinality({q \in (1..n) \X (1..n) : q[1] < q[2] /\ f[q[1]] > f[q[2]]})
 SignedPerms(n) == LET ps == SetToSeq(Permutations(1..n))
-                  IN [k \in 1..Len(ps) |-> [f |-> ps[k], s |-> Sgn(Inversions(ps[k], n))]]
+                  IN TLCEval([k \in 1..Len(ps) |-> [f |-> ps[k], s |-> Sgn(Inversions(ps[k], n))]])
 SP1 == SignedPerms(1)
 SP2 == SignedPerms(2)
 SP3 == SignedPerms(3)
@@ -80,7 +80,7 @@ SPn(n) == CASE n = 1 -> SP1 [] n = 2 -> SP2 [] n = 3 -> SP3 [] n = 4 -> SP4 [] O
 Det(A) ==
   IF Len(A) = 0 THEN 1
   ELSE LET n == Len(A)  sp == SPn(n)
-       IN SumInts([k \in 1..Len(sp) |-> sp[k].s * ProdInts([i \in 1..n |-> A[i][sp[k].f[i]]])])
+       IN SumInts(TLCEval([k \in 1..Len(sp) |-> sp[k].s * ProdInts(TLCEval([i \in 1..n |-> A[i][sp[k].f[i]]]))]))
 
 (* determinant: Laplace expansion along the last column (second definition) *)
 RECURSIVE DetLaplace(_)
@@ -88,29 +88,29 @@ DetLaplace(A) ==
   IF Len(A) = 0 THEN 1
   ELSE IF Len(A) = 1 THEN A[1][1]
   ELSE LET n == Len(A)
-       IN SumInts([i \in 1..n |-> IF A[i][n] = 0 THEN 0
-                                   ELSE Sgn(i + n) * A[i][n] * DetLaplace(Minor(A, i, n))])
+       IN SumInts(TLCEval([i \in 1..n |-> IF A[i][n] = 0 THEN 0
+                                   ELSE Sgn(i + n) * A[i][n] * DetLaplace(Minor(A, i, n))]))
 
 Cof(A, i, j) == Sgn(i + j) * Det(Minor(A, i, j))
-Adj(A) == [i \in 1..Len(A) |-> [j \in 1..Len(A) |-> Cof(A, j, i)]]
+Adj(A) == TLCEval([i \in 1..Len(A) |-> TLCEval([j \in 1..Len(A) |-> Cof(A, j, i)])])
 (* Inv with the adjugate and the determinant already at hand *)
-InvFrom(adj, det) == [i \in 1..Len(adj) |-> [j \in 1..Len(adj) |-> Rat(adj[i][j], det)]]
+InvFrom(adj, det) == TLCEval([i \in 1..Len(adj) |-> TLCEval([j \in 1..Len(adj) |-> Rat(adj[i][j], det)])])
 Inv(A) == InvFrom(Adj(A), Det(A))
-ReplaceCol(A, k, b) == [i \in 1..Len(A) |-> [j \in 1..Len(A) |-> IF j = k THEN b[i] ELSE A[i][j]]]
+ReplaceCol(A, k, b) == TLCEval([i \in 1..Len(A) |-> TLCEval([j \in 1..Len(A) |-> IF j = k THEN b[i] ELSE A[i][j]])])
 (* Cramer *)
-SolveFrom(A, b, det) == [k \in 1..Len(A) |-> Rat(Det(ReplaceCol(A, k, b)), det)]
+SolveFrom(A, b, det) == TLCEval([k \in 1..Len(A) |-> Rat(Det(ReplaceCol(A, k, b)), det)])
 Solve(A, b) == SolveFrom(A, b, Det(A))
 
-Norm1(A) == MaxInts([j \in 1..Len(A) |-> SumInts([i \in 1..Len(A) |-> Abs(A[i][j])])])
+Norm1(A) == MaxInts(TLCEval([j \in 1..Len(A) |-> SumInts(TLCEval([i \in 1..Len(A) |-> Abs(A[i][j])]))]))
 KappaFrom(A, adj, det) == Rat(Norm1(A) * Norm1(adj), Abs(det))
 Kappa(A) == KappaFrom(A, Adj(A), Det(A))
 
 (* rational matrix helpers, used to state the defining equations *)
-RMatVec(A, x) == [i \in 1..Len(A) |-> RSumSeq([j \in 1..Len(A) |-> RMul(RInt(A[i][j]), x[j])])]
-RMatMat(A, X) == [i \in 1..Len(A) |-> [j \in 1..Len(A) |->
-                    RSumSeq([k \in 1..Len(A) |-> RMul(RInt(A[i][k]), X[k][j])])]]
-RIdent(n) == [i \in 1..n |-> [j \in 1..n |-> IF i = j THEN ROne ELSE RZero]]
-RVecOfInts(b) == [i \in 1..Len(b) |-> RInt(b[i])]
+RMatVec(A, x) == TLCEval([i \in 1..Len(A) |-> RSumSeq(TLCEval([j \in 1..Len(A) |-> RMul(RInt(A[i][j]), x[j])]))])
+RMatMat(A, X) == TLCEval([i \in 1..Len(A) |-> TLCEval([j \in 1..Len(A) |->
+                    RSumSeq(TLCEval([k \in 1..Len(A) |-> RMul(RInt(A[i][k]), X[k][j])]))])])
+RIdent(n) == TLCEval([i \in 1..n |-> TLCEval([j \in 1..n |-> IF i = j THEN ROne ELSE RZero])])
+RVecOfInts(b) == TLCEval([i \in 1..Len(b) |-> RInt(b[i])])
 
 (* structural classes *)
 HasZeroRow(A) == \E i \in 1..Len(A) : \A j \in 1..Len(A) : A[i][j] = 0
@@ -128,15 +128,15 @@ IsLowerTri(A) == \A i, j \in 1..Len(A) : i < j => A[i][j] = 0
 IsSymmetric(A) == \A i, j \in 1..Len(A) : A[i][j] = A[j][i]
 
 (* principal sub-matrix selected by a boolean mask *)
-SelIdx(mask) == SelectSeq([i \in 1..Len(mask) |-> i], LAMBDA i : mask[i])
-SubM(A, mask) == LET S == SelIdx(mask) IN [r \in 1..Len(S) |-> [c \in 1..Len(S) |-> A[S[r]][S[c]]]]
-SubV(b, mask) == LET S == SelIdx(mask) IN [r \in 1..Len(S) |-> b[S[r]]]
-MaskOf(n, code) == [i \in 1..n |-> (code \div Pow(2, i - 1)) % 2 = 1]
+SelIdx(mask) == SelectSeq(TLCEval([i \in 1..Len(mask) |-> i]), LAMBDA i : mask[i])
+SubM(A, mask) == LET S == SelIdx(mask) IN TLCEval([r \in 1..Len(S) |-> TLCEval([c \in 1..Len(S) |-> A[S[r]][S[c]]])])
+SubV(b, mask) == LET S == SelIdx(mask) IN TLCEval([r \in 1..Len(S) |-> b[S[r]]])
+MaskOf(n, code) == TLCEval([i \in 1..n |-> (code \div Pow(2, i - 1)) % 2 = 1])
 IsPrefixMask(mask) == \A i, j \in 1..Len(mask) : (i < j /\ mask[j]) => mask[i]
 
-Ones(n) == [i \in 1..n |-> 1]
-Ramp(n) == [i \in 1..n |-> i]
-Unit(n, k) == [i \in 1..n |-> IF i = k THEN 1 ELSE 0]
+Ones(n) == TLCEval([i \in 1..n |-> 1])
+Ramp(n) == TLCEval([i \in 1..n |-> i])
+Unit(n, k) == TLCEval([i \in 1..n |-> IF i = k THEN 1 ELSE 0])
 
 (* ------------------------------------------------------------ families *)
 Vals5 == <<-2, -1, 0, 1, 2>>
@@ -146,33 +146,33 @@ Diag3 == <<1, 2, -1>>
 PermK(n, k) == SPn(n)[k].f
 NPerm(n) == Len(SPn(n))
 (* P[i][j] = 1 iff j = f[i]; times diagonal d on the right: column j scaled by d[j] *)
-PermDiag(n, f, d) == [i \in 1..n |-> [j \in 1..n |-> IF f[i] = j THEN d[j] ELSE 0]]
+PermDiag(n, f, d) == TLCEval([i \in 1..n |-> TLCEval([j \in 1..n |-> IF f[i] = j THEN d[j] ELSE 0])])
 Dense4 == << <<0, 1, -1, 1>>, <<1, 0, 1, -1>>, <<-1, 1, 0, 1>>, <<1, -1, 1, 0>> >>
 
 GenMat(n, idx) ==
-  IF n <= 2 THEN [i \in 1..n |-> [j \in 1..n |-> Vals5[Digit(idx, 5, (i - 1) * n + (j - 1)) + 1]]]
-  ELSE [i \in 1..n |-> [j \in 1..n |-> Vals4[Digit(idx, 4, (i - 1) * n + (j - 1)) + 1]]]
+  IF n <= 2 THEN TLCEval([i \in 1..n |-> TLCEval([j \in 1..n |-> Vals5[Digit(idx, 5, (i - 1) * n + (j - 1)) + 1]])])
+  ELSE TLCEval([i \in 1..n |-> TLCEval([j \in 1..n |-> Vals4[Digit(idx, 4, (i - 1) * n + (j - 1)) + 1]])])
 GenCount(n) == IF n <= 2 THEN Pow(5, n * n) ELSE Pow(4, n * n)
 
 PdMat(idx) == LET f == PermK(3, (idx % 6) + 1)
-                  d == [j \in 1..3 |-> Digit(idx \div 6, 2, j - 1) + 1]
+                  d == TLCEval([j \in 1..3 |-> Digit(idx \div 6, 2, j - 1) + 1])
               IN PermDiag(3, f, d)
 PdCount == 6 * 8
 P4Mat(idx) == LET f == PermK(4, (idx % 24) + 1)
-                  d == [j \in 1..4 |-> Diag3[Digit(idx \div 24, 3, j - 1) + 1]]
+                  d == TLCEval([j \in 1..4 |-> Diag3[Digit(idx \div 24, 3, j - 1) + 1]])
               IN PermDiag(4, f, d)
 P4Count == 24 * 81
-Q4Mat(idx) == LET P == P4Mat(idx) IN [i \in 1..4 |-> [j \in 1..4 |-> 4 * P[i][j] + Dense4[i][j]]]
+Q4Mat(idx) == LET P == P4Mat(idx) IN TLCEval([i \in 1..4 |-> TLCEval([j \in 1..4 |-> 4 * P[i][j] + Dense4[i][j]])])
 
 (* position of (i,j), i < j, among the strict upper entries, row major, 0-based *)
-UpPos(n, i, j) == SumInts([r \in 1..(i - 1) |-> n - r]) + (j - i - 1)
+UpPos(n, i, j) == SumInts(TLCEval([r \in 1..(i - 1) |-> n - r])) + (j - i - 1)
 TrMat(n, idx) ==
   IF n = 3
-  THEN [i \in 1..3 |-> [j \in 1..3 |-> IF i > j THEN 0
-          ELSE Vals4[Digit(idx, 4, IF i = j THEN i - 1 ELSE 3 + UpPos(3, i, j)) + 1]]]
-  ELSE [i \in 1..4 |-> [j \in 1..4 |-> IF i > j THEN 0
+  THEN TLCEval([i \in 1..3 |-> TLCEval([j \in 1..3 |-> IF i > j THEN 0
+          ELSE Vals4[Digit(idx, 4, IF i = j THEN i - 1 ELSE 3 + UpPos(3, i, j)) + 1]])])
+  ELSE TLCEval([i \in 1..4 |-> TLCEval([j \in 1..4 |-> IF i > j THEN 0
           ELSE IF i = j THEN Diag3[Digit(idx, 3, i - 1) + 1]
-          ELSE Vals3[Digit(idx \div 81, 3, UpPos(4, i, j)) + 1]]]
+          ELSE Vals3[Digit(idx \div 81, 3, UpPos(4, i, j)) + 1]])])
 TrCount(n) == IF n = 3 THEN Pow(4, 6) ELSE 81 * Pow(3, 6)
 
 (* integer Cholesky factor: positive diagonal {1,2} (n=1: 1..3), strict lower part *)
@@ -182,10 +182,10 @@ SpdL(n, idx) ==
   ELSE LET nd == n
            off == IF n = 2 THEN Vals4 ELSE Vals3
            b == Len(off)
-       IN [i \in 1..n |-> [j \in 1..n |->
+       IN TLCEval([i \in 1..n |-> TLCEval([j \in 1..n |->
              IF i < j THEN 0
              ELSE IF i = j THEN Digit(idx, 2, i - 1) + 1
-             ELSE off[Digit(idx \div Pow(2, nd), b, LoPos(n, i, j)) + 1]]]
+             ELSE off[Digit(idx \div Pow(2, nd), b, LoPos(n, i, j)) + 1]])])
 SpdCount(n) == IF n = 1 THEN 3 ELSE IF n = 2 THEN 4 * 4 ELSE Pow(2, n) * Pow(3, (n * (n - 1)) \div 2)
 
 MatOf(c) ==
@@ -216,8 +216,8 @@ CasesOfBlock(b) ==
 
 (* ------------------------------------------------------------ the printed case *)
 R2(r) == <<r.n, r.d>>                         \* a rational as [n, d]
-RM2(X) == [i \in 1..Len(X) |-> [j \in 1..Len(X[i]) |-> R2(X[i][j])]]
-RV2(x) == [i \in 1..Len(x) |-> R2(x[i])]
+RM2(X) == TLCEval([i \in 1..Len(X) |-> TLCEval([j \in 1..Len(X[i]) |-> R2(X[i][j])])])
+RV2(x) == TLCEval([i \in 1..Len(x) |-> R2(x[i])])
 
 (* masks printed with a case: all proper non-empty ones for n <= 3, three
    (rotating through all fourteen with the case index) for n = 4 *)
@@ -258,16 +258,16 @@ CaseRecord(c) ==
       inv |-> IF det = 0 THEN <<>> ELSE RM2(InvFrom(adj, det)),
       kap |-> IF det = 0 THEN <<0, 1>> ELSE R2(KappaFrom(A, adj, det)),
       sol |-> IF det = 0 THEN <<>> ELSE <<RV2(SolveFrom(A, Ones(n), det)), RV2(SolveFrom(A, Ramp(n), det))>>,
-      subs |-> [t \in 1..Len(codes) |-> SubRecord(A, IF c.fam = "spd" THEN SpdL(n, c.idx) ELSE <<>>, codes[t])]]
+      subs |-> TLCEval([t \in 1..Len(codes) |-> SubRecord(A, IF c.fam = "spd" THEN SpdL(n, c.idx) ELSE <<>>, codes[t])])]
 
 (* the defining equations, verified by TLC on every printed case.  They are
    stated over the integers, multiplied through by det (Inv = Adj/Det and the
    Cramer numerators are what is printed): A Inv = I  <=>  A Adj = det I, and
    A x = b  <=>  A (det x) = det b. *)
-MulIV(A, x) == [i \in 1..Len(A) |-> SumInts([j \in 1..Len(x) |-> A[i][j] * x[j]])]
-ScaleM(k, A) == [i \in 1..Len(A) |-> [j \in 1..Len(A[i]) |-> k * A[i][j]]]
-ScaleV(k, x) == [i \in 1..Len(x) |-> k * x[i]]
-CramerNum(A, b) == [k \in 1..Len(A) |-> Det(ReplaceCol(A, k, b))]
+MulIV(A, x) == TLCEval([i \in 1..Len(A) |-> SumInts(TLCEval([j \in 1..Len(x) |-> A[i][j] * x[j]]))])
+ScaleM(k, A) == TLCEval([i \in 1..Len(A) |-> TLCEval([j \in 1..Len(A[i]) |-> k * A[i][j]])])
+ScaleV(k, x) == TLCEval([i \in 1..Len(x) |-> k * x[i]])
+CramerNum(A, b) == TLCEval([k \in 1..Len(A) |-> Det(ReplaceCol(A, k, b))])
 ContractHolds(c) ==
   LET A == MatOf(c)
       n == c.n
